@@ -15,6 +15,7 @@ import traceback
 from collections import Counter
 
 from .kernel import HarnessError, silence_logging
+from . import cleanroom
 
 VERIF = os.path.dirname(os.path.dirname(os.path.abspath(__file__)))
 # scratch runs (mutants, self-tests, anything not against /repo itself) never write into /verif/evidence
@@ -270,6 +271,7 @@ def run_check(eng, prop, tier, seed, workers=None, budget_s=None, max_tasks=None
     harness_errors = []
     ctx = multiprocessing.get_context("fork")
     faulthandler.enable()
+    room = cleanroom.start() if getattr(eng, "USES_CLEANROOM", False) else None
     try:
         with cf.ProcessPoolExecutor(max_workers=workers, mp_context=ctx) as pool:
             futs = [pool.submit(_work_chunk, (prop, seed, tier, ch, deadline)) for ch in chunks]
@@ -422,6 +424,7 @@ def run_check(eng, prop, tier, seed, workers=None, budget_s=None, max_tasks=None
     else:
         harness_errors.append(f"nothing explored (evaluations={n_eval}, distinct={len(sigs)})")
 
+    cleanroom.stop(room)
     if harness_errors:
         for h in harness_errors:
             print("HARNESS-ERROR " + h.replace("\n", "\n    "), flush=True)
@@ -438,6 +441,7 @@ def run_replay(eng, prop, path):
     global _ENGINE
     _ENGINE = eng
     silence_logging()
+    room = cleanroom.start() if getattr(eng, "USES_CLEANROOM", False) else None
     devnull = open(os.devnull, "w")
     old = sys.stdout
     sys.stdout = devnull
@@ -448,6 +452,7 @@ def run_replay(eng, prop, path):
     finally:
         sys.stdout = old
         devnull.close()
+        cleanroom.stop(room)
     v = res.get("violation")
     print("REPLAY-RESULT " + json.dumps(
         {"clause": v["clause"] if v else None, "step": v["step"] if v else None, "digest": res["digest"]},
@@ -482,6 +487,7 @@ def run_digests(eng, prop, tier, seed, workers, max_tasks, out_path):
     for i, t in enumerate(sel):
         t["n"] = i
     deadline = time.time() + 3600
+    room = cleanroom.start() if getattr(eng, "USES_CLEANROOM", False) else None
     chunks = [sel[i::max(1, workers * 2)] for i in range(max(1, workers * 2))]
     chunks = [c for c in chunks if c]
     results = []
@@ -502,4 +508,5 @@ def run_digests(eng, prop, tier, seed, workers, max_tasks, out_path):
             out[str(r["task"]["n"])] = r["digest"] + ("" if not v else "|" + v["clause"]) + "|" + r["sig"]
     with open(out_path, "w") as f:
         json.dump(out, f, sort_keys=True)
+    cleanroom.stop(room)
     return 0
